@@ -2269,7 +2269,8 @@ PREFIX (_translate) (region_type_t *region, int x, int y)
         return;
     }
 
-    if (((x2 - PIXMAN_REGION_MIN) | (y2 - PIXMAN_REGION_MIN) | (PIXMAN_REGION_MAX - x1) | (PIXMAN_REGION_MAX - y1)) <= 0)
+    if (x2 <= PIXMAN_REGION_MIN || y2 <= PIXMAN_REGION_MIN ||
+	x1 >= PIXMAN_REGION_MAX || y1 >= PIXMAN_REGION_MAX)
     {
         region->extents.x2 = region->extents.x1;
         region->extents.y2 = region->extents.y1;
@@ -2299,8 +2300,8 @@ PREFIX (_translate) (region_type_t *region, int x, int y)
             pbox_out->x2 = x2 = (overflow_int_t) pbox->x2 + x;
             pbox_out->y2 = y2 = (overflow_int_t) pbox->y2 + y;
 
-            if (((x2 - PIXMAN_REGION_MIN) | (y2 - PIXMAN_REGION_MIN) |
-                 (PIXMAN_REGION_MAX - x1) | (PIXMAN_REGION_MAX - y1)) <= 0)
+            if (x2 <= PIXMAN_REGION_MIN || y2 <= PIXMAN_REGION_MIN ||
+		x1 >= PIXMAN_REGION_MAX || y1 >= PIXMAN_REGION_MAX)
             {
                 region->data->numRects--;
                 continue;
@@ -2319,18 +2320,28 @@ PREFIX (_translate) (region_type_t *region, int x, int y)
             pbox_out++;
 	}
 
-        if (pbox_out != pbox)
+        if (region->data->numRects == 0)
         {
-            if (region->data->numRects == 1)
-            {
-                region->extents = *PIXREGION_BOXPTR (region);
-                FREE_DATA (region);
-                region->data = (region_data_type_t *)NULL;
-	    }
-            else
-	    {
-		pixman_set_extents (region);
-	    }
+            region->extents.x2 = region->extents.x1;
+            region->extents.y2 = region->extents.y1;
+            FREE_DATA (region);
+            region->data = pixman_region_empty_data;
+	}
+        else if (region->data->numRects == 1)
+        {
+            region->extents = *PIXREGION_BOXPTR (region);
+            FREE_DATA (region);
+            region->data = (region_data_type_t *)NULL;
+	}
+        else
+	{
+	    /* Clipping boxes to the coordinate range, or dropping the ones
+	     * that left it, can make the spans of adjacent bands identical,
+	     * so rebuild the canonical form (this also recomputes the
+	     * extents).
+	     */
+	    region->extents.x1 = region->extents.x2 = 0;
+	    validate (region);
 	}
     }
 
